@@ -11,8 +11,9 @@ Proved scope (stated honestly): every kind whose body is declared (`RepBody`): f
 with a counted vector of flat elements, the two set-valued kinds (MAL, IPB: in-domain sets are
 duplicate-free, as the crate's `IndexSet` keeps them) and the until-end-of-frame texts (III MTC BTN
 ACR: NUL-free text within the maximum), through the real framing in both size modes. The hand-written
-MSO body and the 8-byte `GameVersion` text in VER are *not* covered by these theorems; for them the tie
-is the correspondence run and the implementation-side oracle only.
+MSO body is covered by its own lemma (`decMso_encMso`). Only the 8-byte `GameVersion` text in VER is
+*not* covered by these theorems (its round trip involves printing a float); for it the tie is the
+correspondence run and the implementation-side oracle only.
 -/
 namespace Insim.Props.C01
 open Insim Insim.Layout Insim.Frame
@@ -32,8 +33,8 @@ theorem find_self : Gen.Packets.all.all (fun L => (Gen.Packets.all.find? (fun M 
 
 /-- **packet round trip** (`Packet::write` then `Packet::read`): any in-domain packet of a covered
 kind decodes back to itself -/
-theorem packet_roundtrip (L : Layout) (hL : L ∈ Gen.Packets.all) (hb : L.customBody = false) (v : PVal) (bs : Bytes)
-    (hr : RepBody CRep L v) (he : writePacket genEnv L v = .ok bs) :
+theorem packet_roundtrip_any (L : Layout) (hL : L ∈ Gen.Packets.all) (v : PVal) (bs : Bytes)
+    (hr : RepAnyBody CRep L v) (he : writePacket genEnv L v = .ok bs) :
     parsePacket genEnv Gen.Packets.all bs = .ok (L, v) := by
   unfold writePacket at he
   cases hbody : encBody genEnv L v with
@@ -45,7 +46,7 @@ theorem packet_roundtrip (L : Layout) (hL : L ∈ Gen.Packets.all) (hb : L.custo
     have hwf := List.all_eq_true.mp all_wf L hL
     have hfind := List.all_eq_true.mp find_self L hL
     simp only [beq_iff_eq] at hfind
-    have hd := decBody_encBody genEnv CRep customs_lawful L hb hwf v body hr hbody
+    have hd := decBody_encBody_any genEnv CRep customs_lawful L hwf v body hr hbody
     simp only [parsePacket, hfind, hd]
 
 theorem encodeLength_ok (m : Mode) (len n : Nat) (h : encodeLength m len = .ok n) :
@@ -86,8 +87,8 @@ theorem encode_valid (m : Mode) (body f : Bytes) (h : Frame.encode m (.ok body) 
 
 /-- **lossless round trip through the real framing, both size modes**: encoding an in-domain
 packet and decoding the result yields the same packet and consumes the frame completely -/
-theorem frame_roundtrip (m : Mode) (L : Layout) (hL : L ∈ Gen.Packets.all) (hb : L.customBody = false) (v : PVal) (f : Bytes)
-    (hr : RepBody CRep L v) (he : Frame.encode m (writePacket genEnv L v) = .ok f) :
+theorem frame_roundtrip_any (m : Mode) (L : Layout) (hL : L ∈ Gen.Packets.all) (v : PVal) (f : Bytes)
+    (hr : RepAnyBody CRep L v) (he : Frame.encode m (writePacket genEnv L v) = .ok f) :
     Frame.decode m (parsePacket genEnv Gen.Packets.all) f = (.ok (some (L, v)), []) := by
   cases hw : writePacket genEnv L v with
   | err e => simp [hw, Frame.encode] at he
@@ -97,19 +98,41 @@ theorem frame_roundtrip (m : Mode) (L : Layout) (hL : L ∈ Gen.Packets.all) (hb
     obtain ⟨hv, ht⟩ := encode_valid m body f he
     have hs := split_complete m f [] hv
     simp only [List.append_nil] at hs
-    simp only [Frame.decode, hs, ht, packet_roundtrip L hL hb v body hr hw]
+    simp only [Frame.decode, hs, ht, packet_roundtrip_any L hL v body hr hw]
 
 /-- **re-encode**: decoding a frame the encoder produced from an in-domain packet and encoding it again
 gives the identical bytes -/
+theorem reencode_any (m : Mode) (L : Layout) (hL : L ∈ Gen.Packets.all) (v : PVal) (f : Bytes)
+    (hr : RepAnyBody CRep L v) (he : Frame.encode m (writePacket genEnv L v) = .ok f)
+    (L' : Layout) (v' : PVal) (rest : Bytes)
+    (hd : Frame.decode m (parsePacket genEnv Gen.Packets.all) f = (.ok (some (L', v')), rest)) :
+    Frame.encode m (writePacket genEnv L' v') = .ok f := by
+  rw [frame_roundtrip_any m L hL v f hr he] at hd
+  simp only [Prod.mk.injEq, Out.ok.injEq, Option.some.injEq] at hd
+  obtain ⟨⟨rfl, rfl⟩, _⟩ := hd
+  exact he
+
+/-- the three theorems for kinds with a declared body (everything but IS_MSO) -/
+theorem packet_roundtrip (L : Layout) (hL : L ∈ Gen.Packets.all) (hb : L.customBody = false) (v : PVal) (bs : Bytes)
+    (hr : RepBody CRep L v) (he : writePacket genEnv L v = .ok bs) :
+    parsePacket genEnv Gen.Packets.all bs = .ok (L, v) := packet_roundtrip_any L hL v bs (.inl ⟨hb, hr⟩) he
+
+theorem frame_roundtrip (m : Mode) (L : Layout) (hL : L ∈ Gen.Packets.all) (hb : L.customBody = false) (v : PVal) (f : Bytes)
+    (hr : RepBody CRep L v) (he : Frame.encode m (writePacket genEnv L v) = .ok f) :
+    Frame.decode m (parsePacket genEnv Gen.Packets.all) f = (.ok (some (L, v)), []) :=
+  frame_roundtrip_any m L hL v f (.inl ⟨hb, hr⟩) he
+
 theorem reencode (m : Mode) (L : Layout) (hL : L ∈ Gen.Packets.all) (hb : L.customBody = false) (v : PVal) (f : Bytes)
     (hr : RepBody CRep L v) (he : Frame.encode m (writePacket genEnv L v) = .ok f)
     (L' : Layout) (v' : PVal) (rest : Bytes)
     (hd : Frame.decode m (parsePacket genEnv Gen.Packets.all) f = (.ok (some (L', v')), rest)) :
-    Frame.encode m (writePacket genEnv L' v') = .ok f := by
-  rw [frame_roundtrip m L hL hb v f hr he] at hd
-  simp only [Prod.mk.injEq, Out.ok.injEq, Option.some.injEq] at hd
-  obtain ⟨⟨rfl, rfl⟩, _⟩ := hd
-  exact he
+    Frame.encode m (writePacket genEnv L' v') = .ok f := reencode_any m L hL v f (.inl ⟨hb, hr⟩) he L' v' rest hd
+
+/-- … and for the hand-written IS_MSO body (name and message NUL-free, together at most 128 bytes) -/
+theorem mso_frame_roundtrip (m : Mode) (v : PVal) (f : Bytes) (hr : RepMso v)
+    (he : Frame.encode m (writePacket genEnv Gen.Packets.lMso v) = .ok f) :
+    Frame.decode m (parsePacket genEnv Gen.Packets.all) f = (.ok (some (Gen.Packets.lMso, v)), []) :=
+  frame_roundtrip_any m _ (by decide +kernel) v f (.inr ⟨by decide +kernel, hr⟩) he
 
 /-! non-vacuity: a concrete TINY and a concrete MCI with one car are in the domain -/
 example : Gen.Packets.lTiny ∈ Gen.Packets.all := by decide +kernel
